@@ -5,19 +5,19 @@ From EN Require Import Lib.Bytes Lib.Sx.
 Open Scope N_scope.
 
 (* x' = (1103515245 x + 12345) mod 2^31 ; byte = (x' / 2^16) mod 256 *)
-Definition lcg_next (x : N) : N := (1103515245 * x + 12345) mod 2147483648.
+Definition lcg_next (x : N) : N := N.land (1103515245 * x + 12345) 2147483647.
 
 Fixpoint gen_bytes (n : nat) (x : N) : bytes :=
   match n with
   | O => []
-  | S k => let x' := lcg_next x in ((x' / 65536) mod 256) :: gen_bytes k x'
+  | S k => let x' := lcg_next x in N.land (N.shiftr x' 16) 255 :: gen_bytes k x'
   end.
 
-(* Fletcher-style checksum modulo 65521: reordering, duplication and loss all change it *)
+(* Fletcher-style checksum modulo 2^16: reordering, duplication and loss all change it *)
 Fixpoint fletcher (s1 s2 : N) (b : bytes) : N * N :=
   match b with
   | [] => (s1, s2)
-  | x :: r => let s1' := (s1 + x + 1) mod 65521 in fletcher s1' ((s2 + s1') mod 65521) r
+  | x :: r => let s1' := N.land (s1 + x + 1) 65535 in fletcher s1' (N.land (s2 + s1') 65535) r
   end.
 
 Definition digest (b : bytes) : sx :=
